@@ -59,6 +59,7 @@ HANDSHAKE = handshake('own', ['ownable::transfer_ownership', 'ownable::accept_ow
 CHECKS = {
     'C07': {
         'kani': HANDSHAKE,
+        'cmds': [{'name': 'hostmodel-vs-real-host-ttl', 'cmd': {'quick': 'bin/difftest 3 400', 'thorough': 'bin/difftest 12 3000'}}],
         'bounds': HS_BOUNDS,
         'outside_claim': 'networks whose minimum temporary-entry lifetime exceeds 1 (the property fixes it to 1)',
     },
@@ -90,7 +91,7 @@ def _merge():
         for pid, e in getattr(m, 'CHECKS', {}).items():
             cur = CHECKS.setdefault(pid, {})
             for k, v in e.items():
-                if k in ('kani', 'smt', 'trusted_base', 'stubs_and_assumes', 'assumptions'):
+                if k in ('kani', 'smt', 'cmds', 'trusted_base', 'stubs_and_assumes', 'assumptions'):
                     cur[k] = cur.get(k, []) + list(v)
                 elif k in ('bounds', 'outside_claim') and cur.get(k):
                     cur[k] = cur[k] + ' | ' + v
